@@ -187,6 +187,12 @@ def generate(seed, idx, tier):
            'defaults': defaults,
            'order': rng.choice(['ref_first', 'threads_first']),
            'deep_hold_at': sorted({int(2 ** (rng.random() * 12)) for _ in range(rng.choice([0, 1, 2, 3]))})}
+    if idx % 8 == 3:
+        # directed (no rng draw): a numeric value with more significant digits than any arithmetic context
+        # would keep -- per-thread state (the reference pass runs in the main thread, the actors do not)
+        # shows as a different reading of the same text
+        actors[idx % n].append({'kind': 'factory', 'dt': 'NM', 'value': '1234567890.%025d' % (idx * 7919 + 1),
+                                'version': shared_version, 'level': 2})
     return {'world': 'threads', 'seed': seed, 'cfg': cfg, 'actors': actors}
 
 
